@@ -7,6 +7,31 @@ SIZES = [1, 2, 3, 4, 5, 6, 8]
 BATCHES = [[], [], [], [2], [1], [3, 2], [2, 1]]
 
 
+def batch_member_degenerate(spec, rtol=1e-6):
+    """does any square symmetric node of the spec tree with batch dimensions have a member with a (numerically) repeated eigenvalue?
+    A batched Lanczos run on such a node has members that exhaust their Krylov spaces at different steps (see the C06 / C09 findings).
+    Evaluated lazily, on failure paths only (rebuilds the sub-operators)."""
+    import torch
+
+    from .. import zoo
+
+    def walk(s):
+        try:
+            d = zoo.build(s).dense
+            if d.dim() > 2 and d.shape[-1] == d.shape[-2] and d.shape[-1] >= 2 and d.dtype.is_floating_point:
+                d = d.to(torch.float64)
+                if float((d - d.mT).abs().max()) <= 1e-6 * (float(d.abs().max()) + 1e-300):
+                    ev = torch.linalg.eigvalsh((d + d.mT) / 2)
+                    gap = (ev[..., 1:] - ev[..., :-1]).abs().amin(-1)
+                    if bool((gap <= rtol * ev.abs().amax(-1).clamp_min(1e-300)).any()):
+                        return True
+        except Exception:  # noqa: BLE001
+            pass
+        return any(walk(c) for c in s["children"])
+
+    return walk(spec)
+
+
 def spec_tags(spec):
     tags = set()
 
